@@ -565,11 +565,19 @@ def c09(prop, tier, replay):
         res = validate_sharded("Trace_Read", cases, wd, "replay", 1, runner="read-run")
         report_read(prop, tier, res, cases, [], t0, known, "model_checking", "replay", 2)
         return
+    # leg A: the library's fragment lookup (transcribed) against the C09 semantics on abstract tracks
+    ra = tlc_mc("MC_FragLookup", "MC_FragLookup" if tier == "quick" else "MC_FragLookup_t", wd, workers=6 if tier == "quick" else 14, timeout=3000)
+    if ra["violated"] or not ra["ok"]:
+        raise ToolError("FragLookup model: %s\n%s" % (ra["violated"], ra["tail"][-2000:]))
+    if ra["actions"].get("Step", 0) == 0:
+        raise ToolError("vacuity: FragLookup Step never taken")
+    sta = {"cfg": "MC_FragLookup", "states": ra["states"], "distinct": ra["distinct"], "depth": ra["depth"], "cases": 0,
+           "actions": ra["actions"], "wall": round(ra["wall"], 1)}
     st, mcs = gen_mc("MC_Frag", "MC_Frag_q" if tier == "quick" else "MC_Frag_t", wd, tier, need_actions=("Render",))
     st2, mcs2 = gen_mc("MC_Frag", "MC_Frag_trex", wd, tier, need_actions=("Render",))
     cases = frag_cases(mcs, "fr") + frag_cases(mcs2, "frtrex")
     res = validate_sharded("Trace_Read", cases, wd, "frag", 6 if tier == "quick" else 16, runner="read-run")
-    report_read(prop, tier, res, cases, [st, st2], t0, known, "model_checking",
+    report_read(prop, tier, res, cases, [sta, st, st2], t0, known, "model_checking",
                 "fragmented movies: fragment structures (1-3 fragments, 1-2 tracks, empty runs, late tracks) x 5 base-offset modes x "
                 "3 duration modes x 3 composition-offset modes x 32/64-bit tfdt x movie-level defaults x 2 deliveries, rendered by the "
                 "specification; distinct = distinct file bytes; non-trivial = more than one fragment or track",
